@@ -50,7 +50,28 @@ CLAIM = dict(
           "ties the bound value to the precedence dictionary).  x, y and the application id of a request never depend on how the "
           "arguments were passed; the core p of inner requests does for exactly 17 methods, 5 of which take p themselves "
           "(chip_independent_of_passing_style, core_from_context_methods, core_style_dependent_methods, "
-          "core_independent_of_passing_style).  The signature of every decorated method of both controllers is regenerated from "
+          "core_independent_of_passing_style).  THE METHOD BODIES ARE READ FROM THE SOURCE: on every run a translator "
+          "(harness/gen/c18.py, an abstract interpretation of the AST of every context-decorated method of both controllers, with "
+          "the undecorated helpers - _send_ffs/_send_ffcs/_send_ffd/_send_ffe, _get_vcpu_field_and_address - and the root_chip "
+          "property inlined) extracts every self._send_scp(..), every connection.read/write on the connection of "
+          "self._get_connection(x, y) and every inner decorated call, with its destination arguments classified as parameter / "
+          "literal / data-computed / 1 << board or sum-of-shifts mask / first element, the application id resp. board mask read "
+          "out of the command's packed argument (alloc_free, router load, signal, flood_fill_end; power, led), positional vs "
+          "keyword, into Gen/C18Bodies.lean (genBody); the wire theorems are generic in the table of bodies and are "
+          "re-established for the GENERATED one (gen_rules_obey_signature_rule, gen_rules_chip_known, gen_wire_carries_resolved, "
+          "gen_chip_independent_of_passing_style, gen_core_independent_of_passing_style, gen_core_from_context_methods), and the "
+          "hand-written bodyOf - kept as the table the oracle judges datagrams by, so that the judge does not follow the code - is "
+          "proved to induce exactly the same set of symbolic requests (kind, chip, core, application id / cabinet, frame, board, "
+          "mask) for every method (gen_rules_eq_hand, gen_wire_within_hand_rules, hand_wire_within_gen_rules); every decorated "
+          "method is scanned and no send is left unclassified (gen_scanned_all, gen_no_unknown: a send the translator cannot "
+          "classify becomes an explicit `unknown` request that fails every obligation); the only sends deferred to a callback are "
+          "application's stop signal, the only lazy probe left out is scp_data_length's sver to (255, 255, 0) (gen_deferred, "
+          "gen_lazy).  The two _send_scp primitives are read from the source too: MachineController's hands its own (x, y, p) to the "
+          "connection _get_connection(x, y) names for the same chip (gen_mc_send); the model's bmpConnection IS the chain of "
+          "lookups BMPController._send_scp performs - (cabinet, frame, board), then (cabinet, frame), else an error - for all "
+          "connection tables and coordinates, and the datagram is addressed (0, 0, board) (gen_bmpConnection, gen_bmp_dest).  "
+          "This covers all seven BMPController commands (which cabinet / frame / board and mask each carries, board 0 "
+          "for set_power, first board for set_led).  The signature of every decorated method of both controllers is regenerated from "
           "source and proved well-formed for the decorator; every decorated method a decorated method calls directly in the "
           "source (AST, incl. bound methods handed to map) must be an inner call of its wire rule - count_cores_in_state's "
           "per-state self-dispatch included - else the check reports a broken obligation.  Tied to the code on every run: every decorated method x passing style "
@@ -68,11 +89,20 @@ CLAIM = dict(
           "exactly with the model, and the Lean oracles evaluated on every datagram (chip, core, application id / board mask, "
           "connection, stop signal)."),
     design="3/C18",
-    note=("What is proved about the per-method rules is relative to the transcription `bodyOf` (which sends and which inner "
-          "decorated calls a method makes, with which argument expressions): that transcription is validated by "
+    note=("The per-method rules are no longer a hand transcription only: `genBody` is extracted from the source on every run and "
+          "the theorems hold for it; `bodyOf` (hand-written, used by the oracle) is proved to give the same symbolic requests.  "
+          "Trusted in that tie: the translator's abstract interpretation (statement order, branch joins - names assigned "
+          "differently in two branches become `dyn` except the two isinstance(board, int) idioms -, loops kill the names they "
+          "assign, comprehension targets are local, lambdas / nested functions are deferred, each shifted term of a packed "
+          "argument fits below the next one), that sends happen only through self._send_scp / the connection of "
+          "self._get_connection, and the command -> field table that mirrors the model's appOf / maskOf.  The rules are sets of "
+          "requests: how often and in which order a method sends, and which branch sends, is still only validated by the "
           "exhaustive-over-methods correspondence (every datagram of the real method must match a pattern of the rule, and a "
-          "method that sends nothing where the rule has patterns is a mismatch), not proved; values the rule marks `dyn` "
-          "(addresses, chips found in tables) are not compared.  Observation, not a violation (the property speaks of the "
+          "method that sends nothing where the rule has patterns is a mismatch); values the rule marks `dyn` "
+          "(addresses, chips found in tables) are not compared.  When the extracted rule of a method differs from the hand-written "
+          "one the check reports a broken obligation naming the method and adds a focused stream (that method and every method "
+          "whose rule calls it x every passing style x faults, under a block setting every contextual name to another value).  "
+          "Observation, not a violation (the property speaks of the "
           "contextual arguments of the command the caller issued; x / y / app_id are unaffected - proved and observed): inner "
           "decorated calls that omit `p` take it from the context stack, so e.g. `mc.get_processor_status(3, 1, 2)` reads via core "
           "0 but `with mc(x=1, y=2, p=3): mc.get_processor_status()` via core 3; the 17 methods the model proves affected are "
@@ -126,7 +156,7 @@ CLAIM = dict(
           "`did-not-return` is a violation (the model's exec / wire are total functions), polling loops are also bounded by the "
           "fake clock; undocumented exceptions of a method body are reported as model/implementation mismatches (the property "
           "names no permitted failures other than the rejection of a missing argument)."),
-    technique="Lean 4 theorems over a hand-written model + translator for signatures/constants + differential correspondence + Lean spec as oracle")
+    technique="Lean 4 theorems over a hand-written model + translator for signatures/constants/method bodies (wire rules) + differential correspondence + Lean spec as oracle")
 
 THEOREMS = ["signatures_wellformed", "every_method_has_rule", "precedence", "precedence_accepted", "ctxLookup_innermost",
             "default_param", "default_kwonly", "passing_styles_agree",
@@ -1694,6 +1724,40 @@ def explicit_cases(ctx, rng, reps):
     return cases
 
 
+def changed_cases(ctx, rng, reps):
+    """only when the wire rule extracted from the source differs from the hand-written one for some methods: those
+    methods, and every method whose rule calls them, in every passing style - under a block that sets every contextual
+    name to another value, with an ambient core, with and without faults"""
+    cases = []
+    if not _CHANGED:
+        return cases
+    r = ctx.lean([{"suite": "c18", "op": "sigs"}])[0]
+    callers = {(s["cls"], s["name"]): set(s["calls"]) for s in r}
+    todo = set(_CHANGED)
+    for _ in range(4):
+        todo |= {k for k, cs in callers.items() if any((k[0], c) in todo for c in cs)}
+    for rep in range(reps):
+        for (cls, name) in sorted(todo):
+            if (cls, name) in _SKIP or (cls, name) not in signatures() or name == "application":
+                continue
+            for style in ("positional", "keyword", "context", "mixed"):
+                for fault in [None] + FAULTS.get(name, []) + ([["scp_err", rep % 5]] if cls == "MachineController" else []):
+                    cfg = random_cfg(rng, cls)
+                    if name in ("discover_connections", "get_system_info"):
+                        cfg["machine"] = random_machine(rng)
+                    g = Gen(rng, cls, cfg)
+                    st, need = g.call(name, style)
+                    if fault is not None and name != "wait_for_cores_to_reach_state":
+                        st["fault"] = fault
+                    ctxd = [[k, v] for k, v in need.items()] + g.decoys([n for n in ctx_names(cls) if n not in need])
+                    rng.shuffle(ctxd)
+                    cases.append({"cls": cls, "cfg": cfg, "init": None,
+                                  "prog": [{"s": "block", "id": g.fresh_id(), "ctx": ctxd, "body": [st]}],
+                                  "depth": 1, "uses_ctx": True, "exc_exit": False,
+                                  "label": "changed/%s.%s/%s" % (cls, name, style)})
+    return cases
+
+
 def scale_cases(ctx, rng, reps):
     """a handful of cases far beyond the usual size: > 1000 nested blocks, contexts with hundreds of names,
     connection tables of the largest machines"""
@@ -2064,6 +2128,7 @@ def random_cases(ctx, rng, n):
 
 
 _MODEL_CORE = [[]]
+_CHANGED = []      # decorated methods whose wire rule EXTRACTED from the source differs from the hand-written one
 
 
 def check_signature_table(ctx):
@@ -2094,6 +2159,24 @@ def check_signature_table(ctx):
             if c not in have:
                 ctx.broken.append("wire rule of %s.%s lacks the inner call of %s the source makes" % (key[0], key[1], c))
     ctx.extra["inner_calls_in_source"] = n_inner
+    # the wire rules extracted from the source on this run (Gen/C18Bodies.lean) against the hand-written ones
+    del _CHANGED[:]
+    for key in sorted(signatures()):
+        s = got.get(key)
+        if s is None or "gen_same_rules" not in s:
+            continue
+        why = []
+        if s["gen_unknown"]:
+            why.append("a send / inner call the translator cannot classify (%s)" % "; ".join(s["gen_unknown"]))
+        if not s["gen_rule_ok"]:
+            why.append("a request that does not address the chip / board / application its signature names")
+        if not s["gen_same_rules"]:
+            why.append("requests other than those of the hand-written rule bodyOf")
+        if why:
+            _CHANGED.append(key)
+            ctx.broken.append("wire rule extracted from the source of %s.%s has %s" % (key[0], key[1], " and ".join(why)))
+    ctx.extra["generated_ops"] = sum(s.get("gen_n_ops", 0) for s in got.values())
+    ctx.extra["generated_rules_differ_for"] = sorted("%s.%s" % k for k in _CHANGED)
     ctx.extra["decorated_methods"] = len(signatures())
     ctx.extra["symbolic_requests"] = sum(s["n_rules"] for s in got.values())
     _MODEL_CORE[0] = sorted("%s.%s" % k for k, s in got.items() if s["core_from_context"])
@@ -2168,7 +2251,7 @@ def run(ctx):
     ctx.assumptions += [
         "blocks are `with` statements (well-bracketed enter/exit); a context object may be kept and entered any number of times, also while active; it is used with the controller that created it; callbacks are registered before the first entry",
         "board arguments are ints or non-empty collections (list, tuple, set, range, iterator, generator, map) of distinct non-negative ints (set_power / set_led only: the other BMP methods document a single board); a single-pass iterable is used for one command",
-        "the transcription `bodyOf` of which requests / inner decorated calls a method makes is validated by exhaustive-over-methods correspondence, not proved; what IS proved about it: wire_carries_resolved and the passing-style theorems",
+        "the hand-written `bodyOf` (which requests / inner decorated calls a method makes) is proved to give the same symbolic requests as the table extracted from the source on this run (gen_rules_eq_hand); the extraction itself (harness/gen/c18.py) is trusted; order and multiplicity of sends are validated by correspondence only",
         "whether a method body fails (SCP error, failed allocation) is taken from the implementation run as an input of the model; the connection table rewritten by discover_connections is observed per datagram, not predicted",
     ]
     try:
@@ -2183,6 +2266,7 @@ def run(ctx):
         cases += twin_cases(ctx, rng, ctx.scale(2, 16) * mult)
         cases += collection_cases(ctx, rng, ctx.scale(2, 12) * mult)
         cases += explicit_cases(ctx, rng, ctx.scale(3, 24) * mult)
+        cases += changed_cases(ctx, rng, ctx.scale(6, 24))
         cases += random_cases(ctx, rng, ctx.scale(400, 40000) * mult)
         for i in range(0, len(cases), 2000):
             evaluate(ctx, cases[i:i + 2000])
@@ -2219,4 +2303,10 @@ def replay(ctx, payload):
         if _APLX[0] and os.path.exists(_APLX[0]):
             os.unlink(_APLX[0])
             _APLX[0] = None
+THEOREMS += ["gen_scanned_all", "gen_no_unknown", "gen_rules_obey_signature_rule", "gen_rules_chip_known",
+             "gen_wire_carries_resolved", "gen_chip_independent_of_passing_style", "gen_core_independent_of_passing_style",
+             "gen_core_from_context_methods", "gen_rules_eq_hand", "gen_wire_within_hand_rules", "hand_wire_within_gen_rules",
+             "gen_deferred", "gen_lazy",      # wire rules extracted from the source (Props/C18Bodies.lean)
+             "gen_mc_send", "gen_bmpConnection", "gen_bmp_dest",      # the _send_scp primitives, read from the source
+             "wireB_carries_resolved", "chipB_independent_of_passing_style", "coreB_independent_of_passing_style"]
 THEOREMS += ['gen_localEth', 'gen_getConnection']   # translator tie: generated function bodies = model (Props/C18Gen.lean)
